@@ -432,6 +432,9 @@ PROPS = {
             "C04_call_non_function_is_invalid_argument", "C04_get_property_wrong_type", "C04_set_property_wrong_type",
             "C04_integer_overflow_wraps", "C04_integer_overflow_witness", "C04_budget_zero_is_timeout",
             "C04_budget_zero_dispatches_nothing",
+            "C04_equality_total", "C04_append_probe_terminates", "C04_step_no_abort_no_native", "C04_native_call_ok",
+            "C04_step_no_abort_partial2", "C04_step_preserves", "C04_loop_no_abort", "C04_run_no_abort_partial",
+            "C04_fresh_state_inv", "C04_cyclic_table_aborts", "C04_cyclic_heap_not_acyclic",
         ]},
         n_quick=200, n_thorough=2000,
         gen_timeout=3000,
@@ -482,8 +485,17 @@ PROPS = {
         assumptions=[
             "compile_total holds on C04Proofs.module_in_domain (decidable): estimated output below 2^32 bytes (the former "
             "conditions on zero handles went with 3f22e7c: N-C04-1..3 repaired, C04_zero_*_repaired)",
-            "PARTIAL run_no_abort: one step, 37 of 47 opcodes, under step_pre; instructions that look keys up in tables, "
-            "natives and the upvalue instructions are not covered (C04VmProofs.v header lists every abort site of Vm.v)",
+            "run_no_abort: one step of every opcode (C04_step_no_abort_partial2) and the dispatch loop / Vm::run "
+            "(C04_loop_no_abort, C04_run_no_abort_partial) do not abort under the structural invariant vm_inv (proved "
+            "to be preserved: C04_step_preserves) and the per-instruction conditions [side]: the heap is ranked "
+            "(acyclic and nested less than eq_fuel - 1 = 23 tables deep; a cyclic table aborts: C04_cyclic_table_aborts, "
+            "A-37), no native function value names a native that calls back, ForEach's counter is >= 0 in Debug "
+            "builds, RegisterUpvalue's captured variable exists. [side] is a hypothesis on the instructions the "
+            "loop dispatches (heap_acyclic is not preserved by SetProperty / AppendTable of a table into a table). "
+            "NOT covered: the stdlib natives __min / __max / __sort; nested runs enter through the contract "
+            "reenter_ok (a hypothesis); code_ok (instruction starts, operands inside, jump targets and labels at "
+            "starts) is the VM-level reading of C10 wellformed and is assumed, not derived from it "
+            "(C04VmProofs7.v ends with the table of abort sites)",
             "native stack exhaustion and aborts are runtime behaviour: observed per child process, not derivable from the "
             "models (DESIGN section 9); card nesting deeper than the loaders admit is outside the property (class 14)",
             "serde_yaml needs time quadratic in the nesting depth before it reports its recursion limit (100 000 open "
